@@ -197,7 +197,7 @@ func (w *FileWatcher) scan() error {
 			}
 
 			// Skip excluded paths
-			if w.shouldExclude(path) {
+			if w.shouldExclude(relativeTo(watchPath, path)) {
 				if info.IsDir() {
 					return filepath.SkipDir
 				}
@@ -246,7 +246,7 @@ func (w *FileWatcher) detectChanges() []FileChange {
 				return nil
 			}
 
-			if w.shouldExclude(path) {
+			if w.shouldExclude(relativeTo(watchPath, path)) {
 				if info.IsDir() {
 					return filepath.SkipDir
 				}
@@ -308,12 +308,26 @@ func (w *FileWatcher) detectChanges() []FileChange {
 
 // shouldExclude checks if a path should be excluded
 func (w *FileWatcher) shouldExclude(path string) bool {
-	for _, exclude := range w.excludes {
-		if strings.Contains(path, exclude) {
-			return true
+	// An exclude names a directory or file, so it is compared with the path's
+	// components. A substring test also excluded "vendors.glyph" and every
+	// project living under ".../my.github.io/".
+	for _, part := range strings.Split(filepath.ToSlash(path), "/") {
+		for _, exclude := range w.excludes {
+			if part == exclude {
+				return true
+			}
 		}
 	}
 	return false
+}
+
+// relativeTo returns path relative to the watched root, so that the names of
+// the directories leading to the root itself never exclude anything.
+func relativeTo(root, path string) string {
+	if rel, err := filepath.Rel(root, path); err == nil {
+		return rel
+	}
+	return path
 }
 
 // matchesPattern checks if a file matches the watch patterns
